@@ -542,8 +542,22 @@ def rule_j(ctx, idx, A, errcls):
 
         def substitutes(stmts):
             """some path through these statements raises ANOTHER error in place of the one caught (raise X(...), raise_from(X(...), e))"""
+            try:
+                supers_ = {c_.name for c_ in idx.mro(errcls)} | {"RecursiveModelStructure", "ProgramError"}
+            except Exception:
+                supers_ = {"RecursiveModelStructure", "ProgramError"}
+            spared = set()  # statements under `if not isinstance(<caught>, <a class of the loop error>)`: never reached by the loop error
             for st in stmts:
                 for x in ast.walk(st):
+                    if isinstance(x, ast.If) and isinstance(x.test, ast.UnaryOp) and isinstance(x.test.op, ast.Not) and isinstance(x.test.operand, ast.Call) \
+                            and K.src(x.test.operand.func) == "isinstance" and len(x.test.operand.args) == 2 and K.src(x.test.operand.args[0]) == nm:
+                        ts_ = x.test.operand.args[1]
+                        if any(K.src(t_).split(".")[-1] in supers_ for t_ in (ts_.elts if isinstance(ts_, ast.Tuple) else [ts_])):
+                            spared |= {id(y) for b_ in x.body for y in ast.walk(b_)}
+            for st in stmts:
+                for x in ast.walk(st):
+                    if id(x) in spared:
+                        continue
                     if isinstance(x, ast.Raise) and x.exc is not None and not (isinstance(x.exc, ast.Name) and x.exc.id == nm):
                         return x
                     if isinstance(x, ast.Call) and K.src(x.func).split(".")[-1] == "raise_from":
@@ -660,7 +674,7 @@ def run(ctx, idx):
 
     rule_e(ctx, idx, A, rule="C14.e", text="Restated here because the re-entry guard can only fire on a reference that is actually read: a cycle closed through an input the consumer skips (a zero weight, a short-circuit over the list) is never entered and the cyclic model runs to completion.")
     rule_j(ctx, idx, A, errcls)
-    ctx.rule("C14.k", "Validation starts no command: a cleaner reads `<value>.result` (or calls run / execute) only on the true side of a test of the finished flag (C12.b's reading). Command.run validates its arguments before the in-progress flag is set, so a cleaner that evaluates an unfinished reference re-enters run() around the guard - on a loop of such commands the interpreter runs out of stack instead of reporting the recursive model.")
+    ctx.rule("C14.k", "Validation starts no command: a cleaner reads `<value>.result` (or calls run / execute) only on the true side of a test of the finished flag (C12.b's reading) - or every run() sets the in-progress flag before it validates. A cleaner that evaluates an unfinished reference while Command.run validates OUTSIDE the flag's window re-enters run() around the guard: on a loop of such commands the interpreter runs out of stack instead of reporting the recursive model.")
     pbase_ = idx.cls("mpilot.params", "Parameter")
     for ci_ in idx.subclasses(pbase_):
         fi_ = ci_.methods.get("clean")
@@ -671,6 +685,17 @@ def run(ctx, idx):
         for tn_ in touches_:
             guards_ = [t for t in c_.find("test") if isinstance(t.ast, ast.Attribute) and t.ast.attr == A.flag and c_.dominates(t, tn_)]
             ok_ = any(tn_ not in c_.reachable([m for m, l in g.succ if l == "false"], avoid={g}) for g in guards_)
+            if not ok_:
+                # a cleaner that does evaluate unfinished references is still caught by the in-progress flag when every run() sets
+                # the flag BEFORE it validates (the store dominates the validate_params call): each nested run() then either enters a
+                # fresh command or meets a flag already set
+                rc_ = K.cfg_of(idx, A.run)
+                vals_ = rc_.find("call", lambda n: isinstance(n.ast.func, ast.Attribute) and n.ast.func.attr == "validate_params")
+                sets_ = [n for n in rc_.find("store") if isinstance(n.ast, ast.Attribute) and n.ast.attr == "is_running" and isinstance(n.meta.get("value"), ast.Constant) and n.meta["value"].value is True]
+                if vals_ and sets_ and all(any(rc_.dominates(s_, v_) for s_ in sets_) for v_ in vals_):
+                    ctx.hold("C14.k", "%s::touch(%s)" % (fi_.key, K.src(tn_.ast)[:40]), K.rel(fi_), tn_.line,
+                             "the cleaner evaluates a reference that may be unfinished, but every run() sets the in-progress flag before it validates: a loop meets a flag already set")
+                    continue
             ctx.ob("C14.k", "%s::touch(%s)" % (fi_.key, K.src(tn_.ast)[:40]), K.rel(fi_), tn_.line, ok_,
                    "only under `%s` known true" % A.flag if ok_ else "`%s` is evaluated during validation for a command that may be unfinished: validation re-enters run() outside the in-progress guard, and a reference loop recurses until the stack overflows" % K.src(tn_.ast))
     ctx.count("functions", len(idx.funcs))
